@@ -577,7 +577,7 @@ pub fn c18(cfg: &Cfg) -> i32 {
             inconclusive.push(format!("native build of the bare workload failed: {}", tail(&se, 4).replace('\n', " / ")));
         } else {
             let bin = ndir.join("release/c18bare");
-            let runs = cfg.n(64, 1000);
+            let runs = cfg.n(120, 1800);
             let outs: Vec<(u64, Option<i32>, String, String)> = std::thread::scope(|sc| {
                 let mut all = vec![];
                 for chunk in (0..runs).collect::<Vec<u64>>().chunks(4) {
@@ -588,7 +588,7 @@ pub fn c18(cfg: &Cfg) -> i32 {
                             let k = *k;
                             sc.spawn(move || {
                                 let mut c = Command::new(&bin);
-                                c.args(["0", &format!("{}", 4 + (k % 4) * 4), "1", &format!("{}", cfg.seed * 7919 + k), &format!("{}", 2 + k % 9), "100", "0", "0", "1"]);
+                                c.args(["0", &format!("{}", 4 + (k % 4) * 4), "1", &format!("{}", cfg.seed * 7919 + k), &format!("{}", 2 + k % 9), "100", "0", "0", if k % 3 == 0 { "1" } else { "2" }]);
                                 let (code, so, se) = run_cmd(c);
                                 (k, code, so, se)
                             })
@@ -602,6 +602,9 @@ pub fn c18(cfg: &Cfg) -> i32 {
             });
             for (k, code, so, se) in outs {
                 sink.count("cold_start_processes");
+                if k % 3 != 0 {
+                    sink.count("cold_start_processes_on_prepared_states");
+                }
                 if code == Some(1) || so.contains("MISMATCH") {
                     sink.violate("C18", "cold_start_result_ne_sequential", format!("C18|cold_start|{}", k), format!("fresh process {}: threads making the first engine calls concurrently disagree with the sequential result: {}", k, tail(&so, 4).replace('\n', " / ")), json!({"kind": "threads", "observer": "cold_start", "run": k}));
                 } else if code != Some(0) {
